@@ -18,6 +18,7 @@ pub mod c06;
 pub mod c07;
 pub mod c08;
 pub mod c09;
+#[cfg(feature = "hooks")]
 pub mod c10;
 pub mod c11;
 pub mod c12;
@@ -131,6 +132,7 @@ pub fn dispatch(prop: &str, ctx: &Ctx) -> Option<i32> {
         "C07" => Some(c07::run(ctx)),
         "C08" => Some(c08::run(ctx)),
         "C09" => Some(c09::run(ctx)),
+        #[cfg(feature = "hooks")]
         "C10" => Some(c10::run(ctx)),
         "C11" => Some(c11::run(ctx)),
         "C12" => Some(c12::run(ctx)),
@@ -153,6 +155,7 @@ pub fn replay(prop: &str, case: &Value) -> Option<Vec<Violation>> {
         "C07" => Some(c07::replay(case)),
         "C08" => Some(c08::replay(case)),
         "C09" => Some(c09::replay(case)),
+        #[cfg(feature = "hooks")]
         "C10" => Some(c10::replay(case)),
         "C11" => Some(c11::replay(case)),
         "C12" => Some(c12::replay(case)),
@@ -316,6 +319,7 @@ pub fn shrink_case(prop: &str, case: &Value) -> Vec<Value> {
         "C06" => c06::shrink(case),
         "C07" => c07::shrink(case),
         "C09" => c09::shrink(case),
+        #[cfg(feature = "hooks")]
         "C10" => c10::shrink(case),
         "C12" => c12::shrink(case),
         "C16" => c16::shrink(case),
